@@ -1,5 +1,6 @@
 """C14 — ordinary prose passes through unchanged."""
 import html
+import os
 import multiprocessing as mp
 import random
 import re
@@ -7,12 +8,13 @@ import re
 from harness import core, xdoc
 
 GEN = ['gen_tables', 'gen_regex', 'gen_config', 'gen_escapes']
-THEOREMS = ['C14_prose_paragraph_passes_through', 'C14_prose_paragraph_parses', 'C14_prose_hypotheses_hold', 'C14_plain_line_passes_through', 'C14_plain_line_parses', 'C14_plain_hypotheses_hold', 'C14_bounded_prose', 'C14_block_starts_need_their_marker', 'C14_inert_predicate_is_not_vacuous']
+THEOREMS = ['C14_inert_delimiters_pass_through', 'C14_inert_delimiters_decidable', 'C14_scanner_finds_nothing', 'C14_inert_hypotheses_hold', 'C14_prose_paragraph_passes_through', 'C14_prose_paragraph_parses', 'C14_prose_hypotheses_hold', 'C14_plain_line_passes_through', 'C14_plain_line_parses', 'C14_plain_hypotheses_hold', 'C14_bounded_prose', 'C14_block_starts_need_their_marker', 'C14_inert_predicate_is_not_vacuous']
 TRUSTED = ['the inertness predicate (harness/props/c14.py:inert, written from the CommonMark 0.30 / GFM block-start and inline rules, conservative: '
            'when in doubt a paragraph is skipped) and its Coq twin Proofs/Prose.v:inert_text used by the kernel sweep',
            'the parser and HTML renderer models (tied by X-doc and X-html on the same paragraphs)',
            'vm_compute for the bounded sweep']
-ASSUMPTIONS = ['unbounded theorem for paragraphs of any number of trigger-free lines (C14_prose_paragraph_passes_through): first line plain, continuation lines plain and not beginning with = or a list-item marker character; the same class is run on the implementation (plain_paragraphs_of_several_lines)',
+ASSUMPTIONS = ['unbounded theorem for paragraphs of any number of lines with delimiter characters in inert positions (C14_inert_delimiters_pass_through): no backslash, backtick, &, no ]( , no run of * or _ that can close emphasis, each regex span token lacks a character it needs; the class is generated from words such as * ** _ snake_case [ ![ ] [x] f(x)[i] < 2 * 3 *open, decided by an independent flanking predicate (harness), run on the implementation (inert_delimiter_paragraphs), and the theorem\'s computable hypotheses are evaluated in the proof assistant on a sample (..._with_hypotheses_checked_in_the_model)',
+               'unbounded theorem for paragraphs of any number of trigger-free lines (C14_prose_paragraph_passes_through): first line plain, continuation lines plain and not beginning with = or a list-item marker character; the same class is run on the implementation (plain_paragraphs_of_several_lines)',
                'unbounded theorem (whole pipeline model): a line free of the 14 trigger characters \\ * _ [ ] ! ` ~ < newline $ & { | that begins with a non-marker character '
                'and does not end in white space renders as <p>escaped text</p>, for every modelled token configuration; the random plain-line stream ties '
                'that class to the implementation',
@@ -144,6 +146,73 @@ def plain_worker(l):
         return 'EXC %s: %s' % (type(e).__name__, e)
 
 
+# ---- the class of C14_inert_delimiters_pass_through, decided independently of the model (ASCII plus a few letters) ----
+INERT_WORDS = ['a', 'word', 'snake_case', 'x_1_y', 'é', '中', '*', '**', '***', '_', '__', '*open', '**open', '_open', '__open', '[', '![', ']', '[x]', '![y]', 'f(x)[i]',
+               '<', '2 * 3', 'a_b', '(', ')', '"q"', "it's", 'e.g.', '50%', '@you', '#tag', 'x = y', '[1]', '[^n]', '] [', '!', '!x', 'a*', 'b_', '*em*', '_em_', 'p**', 'x](y', '[z](w)', '>',
+               '(*', '*)', '_)', '(_', '.*', '*.', 'end.', ',', ';', ':', '?', '+', '-', '=', '1.', '2)', '^', '%', '@', '/', '}']
+INERT_FIRST = set('abcdefghijklmnopqrstuvwxyzABCDEFGHIJKLMNOPQRSTUVWXYZé中("\'.,;:?)%@^/}')
+
+
+def _ws(c):
+    return c is None or c in ' \t\n\r\x0b\x0c'
+
+
+def _punct(c):
+    return c is not None and c in '!"#$%&\'()*+,-./:;<=>?@[\\]^_`{|}~'
+
+
+def run_is_closer(s, a, b):
+    prev = s[a - 1] if a > 0 else None
+    nxt = s[b] if b < len(s) else None
+    right = (not _ws(prev)) and ((not _punct(prev)) or _ws(nxt) or _punct(nxt))
+    left = (not _ws(nxt)) and ((not _punct(nxt)) or _ws(prev) or _punct(prev))
+    if s[a] == '*':
+        return right
+    return right and ((not left) or _punct(nxt))
+
+
+def in_inert_class(lines):
+    """the hypotheses of C14_inert_delimiters_pass_through for the HTML renderer's token sets"""
+    for k, l in enumerate(lines):
+        if not l or '\n' in l or '|' in l or l[-1].isspace() or l[0] not in INERT_FIRST:
+            return False
+    s = '\n'.join(lines)
+    if any(c in s for c in '\\`&~') or ('<' in s and '>' in s) or '](' in s:
+        return False
+    if any(ord(c) > 127 and c not in 'é中' for c in s):
+        return False
+    for m in re.finditer(r'\*+|_+', s):
+        if run_is_closer(s, m.start(), m.end()):
+            return False
+    return True
+
+
+def model_inert_hypotheses(paras):
+    """evaluates the theorem's computable hypotheses (Proofs/InertProse.v) on the paragraphs inside the proof assistant"""
+    d = os.path.join(core.ROOT, 'coq', 'cases')
+    os.makedirs(d, exist_ok=True)
+    path = os.path.join(d, 'C14Cases.v')
+    lit = lambda l: '[' + '; '.join(str(ord(c)) for c in l) + ']'
+    body = ';\n  '.join('[' + '; '.join(lit(l) for l in p) + ']' for p in paras)
+    with open(path, 'w') as f:
+        f.write('From Coq Require Import ZArith List Bool.\nFrom Mistletoe Require Import Base.Sx Base.PyStr Base.PyText Gen.GenConfig Model.Parser Proofs.InertProse.\n'
+                'Import ListNotations.\nOpen Scope Z_scope.\nDefinition ps : list (list (list Z)) := [\n  %s].\n'
+                'Eval vm_compute in map (fun p => match p with l :: ls => inert_paragraph_b l ls && lacks_nl_config cfg_html (join [10] (l :: ls)) | [] => false end) ps.\n' % body)
+    rc, out = core.sh(['coqc', '-Q', 'theories', 'Mistletoe', path], timeout=900, cwd=os.path.join(core.ROOT, 'coq'))
+    for ext in ('.vo', '.vok', '.vos', '.glob'):
+        try:
+            os.remove(path[:-2] + ext)
+        except OSError:
+            pass
+    try:
+        os.remove(os.path.join(d, '.C14Cases.aux'))
+    except OSError:
+        pass
+    if rc != 0 or '=' not in out:
+        return None, out[-400:]
+    return re.findall(r'\b(true|false)\b', out.split('=', 1)[1].split(': list bool')[0]), ''
+
+
 def run(ctx, only=None):
     ctx.cov['rule'] = ('paragraphs of 1-4 lines x 1-6 tokens from a %d-token vocabulary of tricky-but-inert words, kept when the independent inertness predicate '
                        'holds; every 1- and 2-token line exhaustively; each with and without a final newline; non-trivial = the paragraph contains a character '
@@ -211,6 +280,38 @@ def run(ctx, only=None):
         if got != want:
             ctx.failing.append({'interface': 'oracle(plain lines)', 'input': {'lines': [x + '\n' for x in ls]}, 'what': 'lines without trigger characters are not rendered as their own text inside one <p>',
                                 'observed': got, 'expected': want, 'kf': None})
+    # the class of C14_inert_delimiters_pass_through: delimiter characters where they mean nothing, any number of lines
+    inert_ps, tried = [], 0
+    while len(inert_ps) < (4000 if ctx.quick() else 80000) and tried < 4000000:
+        tried += 1
+        p = [' '.join(rng.choice(INERT_WORDS) for _ in range(rng.randint(1, 7))) for _ in range(rng.randint(1, 5))]
+        if in_inert_class(p):
+            inert_ps.append(p)
+    ctx.cov['inert_delimiter_paragraphs_generated'] = tried
+    with mp.Pool(core.NPROC) as pool:
+        ires = pool.map(plain_worker, inert_ps, chunksize=200)
+    for ls, got in zip(inert_ps, ires):
+        ctx.count('evaluations')
+        ctx.count('inert_delimiter_paragraphs')
+        if re.search(r'[*_\[\]!<>]', ''.join(ls)):
+            ctx.count('inert_delimiter_paragraphs_with_delimiters')
+        want = '<p>' + html.escape('\n'.join(ls), quote=False) + '</p>\n'
+        if got != want:
+            ctx.failing.append({'interface': 'oracle(inert delimiters)', 'input': {'lines': [x + '\n' for x in ls]},
+                                'what': 'delimiter characters in positions where they mean nothing are not rendered as their own text inside one <p>',
+                                'observed': got, 'expected': want, 'kf': None})
+    # the theorem's own hypotheses, evaluated in the proof assistant on a sample of those paragraphs (short ones: the check is cubic)
+    short = [p for p in inert_ps if sum(len(x) + 1 for x in p) <= 70][:(60 if ctx.quick() else 400)]
+    if short and not ctx.proof_failures:
+        flags, err = model_inert_hypotheses(short)
+        if flags is None or len(flags) != len(short):
+            ctx.disagreements.append({'interface': 'X-hyp(inert delimiters)', 'input': {'lines': short[0]}, 'model': 'the hypotheses could not be evaluated: ' + err, 'impl': ''})
+        else:
+            for p, fl in zip(short, flags):
+                ctx.count('inert_delimiter_paragraphs_with_hypotheses_checked_in_the_model')
+                if fl != 'true':
+                    ctx.disagreements.append({'interface': 'X-hyp(inert delimiters)', 'input': {'lines': [x + '\n' for x in p]},
+                                              'model': 'a hypothesis of C14_inert_delimiters_decidable is false', 'impl': 'inside the class by the harness predicate'})
     ctx.cov['vocabulary'] = len(VOCAB)
     ctx.cov['lines_per_paragraph'] = {str(n): sum(1 for p in kept if len(p) == n) for n in (1, 2, 3, 4)}
     ctx.count('distinct_nontrivial', nontriv)
